@@ -41,6 +41,7 @@ def op_transfer(w: World, op: dict):
     w.xfer_active = False
     began = {}
     index = w.open_index() if op.get("idx") and dst == w.idx_store else None
+    src_index = w.open_index() if op.get("idx") and src == w.idx_store else None
     src_odb = w.odb(src, "src")
     dst_odb = w.odb(dst, "dst")
 
@@ -52,12 +53,14 @@ def op_transfer(w: World, op: dict):
     try:
         try:
             res = transfer(src_odb, dst_odb, set(_his(w, op["req"])), shallow=op["shallow"],
-                           verify=bool(op.get("verify")), dest_index=index, validate_status=on_status,
+                           verify=bool(op.get("verify")), dest_index=index, src_index=src_index, validate_status=on_status,
                            jobs=op.get("jobs"))
         finally:
             w.xfer_active = False
             if index is not None:
                 index.close()
+            if src_index is not None:
+                src_index.close()
     except Killed:
         w.emit({"op": "Abort"}, {"op": "abort"})
         return
@@ -280,6 +283,11 @@ def stale_cases(rng: random.Random, limit: int, closed_only: bool = False) -> li
         if c["kind"] == "status":
             ops.append({"op": "Status", "s": "remote", "ids": c["ids"], "shallow": c["shallow"], "idx": True})
             ops.append(first)
+        elif len(cases) % 3 == 2:
+            # fetch: the cache is emptied, then the request is fetched back through the remote's (stale) index
+            back = {"op": "Transfer", "src": "remote", "dst": "cache", "req": c["ids"], "shallow": c["shallow"], "idx": True, "F": []}
+            ops += [{"op": "Gc", "s": "cache", "used": [], "foreign": [], "ord": "used-first", "shallow": True, "dry": False, "ro": False,
+                     "cs": "cache", "cro": False}, back, back]
         else:
             again = {"op": "Transfer", "src": "cache", "dst": "remote", "req": c["ids"], "shallow": c["shallow"], "idx": True, "F": []}
             ops += [again, again]
